@@ -7,4 +7,5 @@ pub mod gen;
 pub mod props;
 pub mod q;
 pub mod refs;
+pub mod refs_ehlers;
 pub mod runner;
